@@ -1,5 +1,6 @@
 import Casket.Proofs.Reload
 import Casket.Proofs.ReloadSeq
+import Casket.Proofs.ReloadSource
 import Casket.Spec.Reload
 /-
 C07 — Reloading the configuration never drops or misroutes a request.   (PARTIAL)
@@ -95,6 +96,42 @@ theorem C07_model_verdict_ok (busy : List Nat) (c0 : Cfg) (hops : List HOp)
 
 example : ∀ a ∈ (⟨[1, 2], false⟩ : Cfg).addrs, ([3] : List Nat).contains a = false := by decide
 
+/-- **The new configuration is what is written at the time of the reload call.**  Whatever was written — and loaded — before
+(`old` is arbitrary), once configuration `c` has been written with marker `g`, in ANY spelling (inline, sites in imported files
+that are rewritten, a glob import, a snippet, one block for all addresses, another layout), a load yields exactly the meaning
+`c`, and every site answers with marker `g`.  `load` has no argument through which an earlier load could influence it. -/
+theorem C07_load_reads_what_is_written (old : Source) (sp : Spelling) (c : Cfg) (g : Nat) (h : c.addrs ≠ []) :
+    load (write old sp c g) = c ∧ ∀ k ∈ markers (write old sp c g), k = g :=
+  ⟨load_write old sp c g h, markers_write old sp c g⟩
+
+example : (⟨[1, 2], true⟩ : Cfg).addrs ≠ [] := by decide
+
+/-- a source that held generation 1 of address 1 and is rewritten for generation 2 loads as generation 2 -/
+example : markers (write (write [] .imported ⟨[1], false⟩ 1) .imported ⟨[1], false⟩ 2) = [2] := by decide
+
+/-- **Every spelling of the same meaning gives the same answers.**  Two hand-over cases whose operations have the same
+meanings (same kind of operation, same configuration), written in whatever spellings, have the same observations. -/
+theorem C07_spelling_irrelevant (busy : List Nat) (c0 : Cfg) (sp0 sp0' : Spelling) (ws ws' : List WOp)
+    (h0 : c0.addrs ≠ []) (h : ∀ w ∈ ws, w.cfg.addrs ≠ []) (h' : ∀ w ∈ ws', w.cfg.addrs ≠ [])
+    (hm : ws.map WOp.meaning = ws'.map WOp.meaning) :
+    handoverRunW busy c0 sp0 ws = handoverRunW busy c0 sp0' ws' := by
+  rw [handoverRunW_meaning busy c0 sp0 ws h0 h, handoverRunW_meaning busy c0 sp0' ws' h0 h', hm]
+
+example : [(⟨.reload, ⟨[1, 2], false⟩, .imported⟩ : WOp)].map WOp.meaning = [(⟨.reload, ⟨[1, 2], false⟩, .glob⟩ : WOp)].map WOp.meaning := by
+  decide
+
+/-- **Model and judge agree on the hand-over stream, in every spelling.**  The judge is applied to the MEANINGS of the
+operations; the model writes every configuration in its spelling, loads what is written at the call, and runs the protocol
+machine on that.  For every valid start and every sequence of written operations the observations satisfy the judge. -/
+theorem C07_written_model_verdict_ok (busy : List Nat) (c0 : Cfg) (sp0 : Spelling) (ws : List WOp)
+    (hfree : ∀ a ∈ c0.addrs, busy.contains a = false) (h0 : c0.addrs ≠ []) (h : ∀ w ∈ ws, w.cfg.addrs ≠ []) :
+    verdict busy c0 (ws.map WOp.meaning) (handoverRunW busy c0 sp0 ws) = "ok" := by
+  rw [handoverRunW_meaning busy c0 sp0 ws h0 h]
+  exact C07_model_verdict_ok busy c0 _ hfree
+
+example : ∀ w ∈ [(⟨.straddle, ⟨[2, 1], true⟩, .shared⟩ : WOp), ⟨.reload, ⟨[1], false⟩, .importedKeepTime⟩], w.cfg.addrs ≠ [] := by
+  decide
+
 /-- **Hand-over is per address (and per kind of socket).**  A listen step that succeeds concerns one socket `x` — the TCP
 listener (`2a`) or the packet conn (`2a+1`) of one address: the new server for `x` gets a descriptor of the socket of `x`
 (when the old instance holds one, the very same socket) or opens its own; the descriptors, the socket identity and the
@@ -134,6 +171,12 @@ example : stepLaw [3] { gen := 1, addrs := [1], prev := ⟨"ok", 1, 0, 1, 0, "1"
 /-- so is an old configuration answering after the reload returned, -/
 example : stepLaw [3] { gen := 1, addrs := [1], prev := ⟨"ok", 1, 0, 1, 0, "1", "-", 1, none, none⟩, next := 2 }
     (.reload ⟨[1], false⟩) ⟨"ok", 1, 0, 1, 0, "1", "-", 1, none, none⟩ = some "after-return-not-new" := by decide
+
+/-- in particular when the reload was built from the OLD text of an imported file that had been rewritten (spelling is not
+part of the judge: the same observation is rejected however the configuration was written), -/
+example : verdict [3] ⟨[1], false⟩ ([(⟨.reload, ⟨[1], false⟩, .imported⟩ : WOp)].map WOp.meaning)
+    [⟨"ok", 1, 0, 1, 0, "1", "-", 1, none, none⟩, ⟨"ok", 1, 0, 1, 0, "1", "-", 1, none, none⟩] = "bad:after-return-not-new:op 1" := by
+  decide
 
 /-- a request in flight that is cut off, -/
 example : stepLaw [3] { gen := 1, addrs := [1], prev := ⟨"ok", 1, 0, 1, 0, "1", "-", 1, none, none⟩, next := 2 }
